@@ -43,8 +43,15 @@ def run_case(elfi, values, n, b, form, arg, seed):
     kw = {form: arg}
     with native.time_limit(30):
         res = rej.sample(n, bar=False, **kw)
+    return _check_result(res, pool, n, b, form, arg, rej=rej)
+
+
+def _check_result(res, pool, n, b, form, arg, rej=None):
+    second = rej is None
     # independent record of what was simulated
-    nb = len(pool.stores['d'])
+    nb = res.n_batches if second else len(pool.stores['d'])
+    if nb > len(pool.stores['d']):
+        return 'n_batches=%d exceeds the %d batches the pool recorded' % (nb, len(pool.stores['d']))
     rec = {k: np.concatenate([np.atleast_1d(pool.stores[k][i]) for i in range(nb)]) for k in ('t', 'y', 's', 'd')}
     out = res.outputs
     dret = np.asarray(out['d'], float)
@@ -81,6 +88,19 @@ def run_case(elfi, values, n, b, form, arg, seed):
         return 'returned discrepancy above the threshold'
     if float(res.threshold) != float(dret[-1]):
         return 'reported threshold %r != largest returned discrepancy %r' % (float(res.threshold), float(dret[-1]))
+    if not second and form in ('n_sim', 'quantile'):
+        # the same sampler object asked again (a longer run): the second result must obey the property on ITS consumed
+        # batches, and the first result object must not be rewritten
+        keep = {k: np.array(out[k], copy=True) for k in out}
+        n_sim2 = b * (nb + 2)
+        with native.time_limit(30):
+            res2 = rej.sample(n, bar=False, n_sim=n_sim2)
+        f = _check_result(res2, pool, n, b, 'n_sim', n_sim2)
+        if f:
+            return 'second run on the same sampler object: ' + f
+        for k in keep:
+            if not np.array_equal(np.asarray(res.outputs[k]), keep[k]):
+                return 'the result of the first run (output %s) was rewritten by the second run on the same sampler' % k
     return None
 
 
